@@ -175,6 +175,7 @@ namespace vg
     struct Group
     {
         Shared *sh = nullptr;
+        std::function<void()> onChildStart;
         std::string tmp;
         Group()
         {
@@ -206,6 +207,8 @@ namespace vg
             if (pid == 0)
             {
                 // child: quiet stderr noise of crashes is kept (driver shows the tail), time limit by alarm
+                if (onChildStart)
+                    onChildStart();
                 vf::Report r;
                 r.maxFailuresPerKey = into.maxFailuresPerKey;
                 r.maxSamples = into.maxSamples;
